@@ -794,6 +794,19 @@ fn c09(cfg: &CCfg, e: &Exec, f: &Facts, vs: &mut Vec<Violation>, nt: &mut bool) 
             if out.starts_with("Err") {
                 v(vs, "C09-spurious-error", cfg, format!("dispatch ended with {out} without any transport failure"));
             }
+            // the dispatch closes the transport and reports how that went: it does not complete
+            // cleanly while its close is still pending (a failure of that close - Close#k for
+            // k > 1 - could then never be reported; seeded change C09l)
+            let mut last_close: Option<Res> = None;
+            for r in e.recs.iter() {
+                if let Rec::T { side: 0, op: Op::Close, res, .. } = r {
+                    last_close = Some(*res);
+                }
+            }
+            if out == "Ok" && f.eof_read.is_none() && last_close == Some(Res::Pending) {
+                *nt = true;
+                v(vs, "C09-close-abandoned", cfg, "the dispatch completed successfully while its close of the transport was still pending: the close is never polled again, so its failure would go unreported".into());
+            }
         }
         _ => {}
     }
@@ -1328,6 +1341,7 @@ fn base(callers: Vec<CallerCfg>, mif: usize, buf: usize, fl: Flavour, cap: usize
         alphabet,
         fault: None,
         keep_root: false,
+        abandon_by_unwind: false,
         start_age_ms: 0,
     }
 }
@@ -1384,6 +1398,18 @@ pub fn configs(prop: CProp, tier: Tier) -> Vec<CCfg> {
                     // dispatch not polled is not an environment any executor produces)
                     out.push(base(callers, 2, 1, Flavour::Always, 1, alpha & !A_ADVANCE));
                 }
+            }
+            // a call made on a connection that is more than a day old while an older call is still in
+            // flight is answered like any other (seeded change C01l replaced the deadline queue of a
+            // BUSY old connection, so that timer keys of old and new calls aliased)
+            {
+                let h = 3_600_000i64;
+                let callers = vec![
+                    CallerCfg { deadline_ms: 26 * h, ..CallerCfg::simple(false) },
+                    CallerCfg { deadline_ms: 27 * h, after: Some(2), ..CallerCfg::simple(true) },
+                    CallerCfg { deadline_ms: 25 * h, ..CallerCfg::simple(false) },
+                ];
+                out.push(base(callers, 3, 1, Flavour::Always, 1, alpha & !A_ADVANCE));
             }
             // a connection that goes idle between two calls: an unsolicited frame that arrives then
             // (possibly bearing the id the next call will be given) is gone when the next call is made
@@ -1570,6 +1596,21 @@ pub fn configs(prop: CProp, tier: Tier) -> Vec<CCfg> {
                     }
                 }
             }
+            // the task that owns a call panics: its call future is dropped while the thread is
+            // unwinding - an abandoned call like any other (seeded change C03l skipped the guard's
+            // notice on that path)
+            if prop == CProp::C03 {
+                for (fl, cap) in [(Flavour::Always, 1usize), (Flavour::Coupled, 1)] {
+                    for n in 1..=2usize {
+                        let mut callers: Vec<CallerCfg> = (0..n).map(|_| CallerCfg::simple(true)).collect();
+                        callers[0].answered = false;
+                        let mut c = base(callers, 2, 1, fl, cap, A_ABANDON | A_REPLY_UNOWED | A_DRAIN);
+                        c.keep_root = true;
+                        c.abandon_by_unwind = true;
+                        out.push(c);
+                    }
+                }
+            }
             // the caller lives on another thread: it may drop its call while the dispatch is inside the
             // transport's start_send for that very request (a yield point at the start of the mock's
             // start_send; seeded change C03j tracked a request only after the write and skipped the
@@ -1718,6 +1759,23 @@ pub fn configs(prop: CProp, tier: Tier) -> Vec<CCfg> {
         }
         CProp::C10 => {
             let alpha = A_ABANDON | A_EOF | A_DROPROOT | A_REPLY_UNOWED | A_DRAIN | A_PARK;
+            // a socket-like transport with room for two messages: what was written last (a
+            // cancellation, a request) is still buffered when the last handle goes, so the close
+            // needs more than one poll; the dispatch completes only once it went through
+            // (seeded change C09l completed with the close still pending)
+            for n in 1..=2usize {
+                for who in 0..n {
+                    for k in 1..=2u32 {
+                        for keep in [false, true] {
+                            let mut cs: Vec<CallerCfg> = (0..n).map(|i| CallerCfg::simple(i != who)).collect();
+                            cs[who].script = Script::AbandonAfter(k);
+                            let mut c = base(cs, 2, 1, Flavour::Coupled, 2, alpha);
+                            c.keep_root = keep;
+                            out.push(c);
+                        }
+                    }
+                }
+            }
             for n in 1..=3usize {
                 for mif in 1..=3usize {
                     if mif == 3 && n != 2 {
